@@ -42,6 +42,11 @@ func (t *Trie) Insert(word string) {
 			if char > t.max {
 				t.max = char
 			}
+		default:
+			if i == l-1 {
+				// Existing inner node: the word ends here, mark it as a valid word end.
+				t.children[char].valid = true
+			}
 		}
 		t = t.children[char]
 	}
